@@ -414,6 +414,8 @@ def cmd_check(pid, tier, seed):
             violations.append((dst, "crash/hang: " + c.get("full", sig)))
         # generator health: essential classes
         for lab in p.get("essential", []):
+            if budget["count"] == 0:
+                break   # this part does not run in this tier
             if labels.get(lab, 0) == 0:
                 if any(lab in e for e in p.get("essential_unless_avoided", {}).get(lab, []) if e in avoid):
                     continue
